@@ -2186,6 +2186,10 @@ static void cmd_validate(char **tok, int ntok)
     for (c = chain, k = 0; c; c = c->next, k++) sb_printf(&g_out, "%s%d", k ? "," : "", c->authStatus);
     sb_printf(&g_out, "],\"fl\":[");
     for (c = chain, k = 0; c; c = c->next, k++) sb_printf(&g_out, "%s%d", k ? "," : "", (int) c->authFailFlags);
+    sb_printf(&g_out, "],\"rs\":[");
+#ifdef USE_CRL
+    for (c = chain, k = 0; c; c = c->next, k++) sb_printf(&g_out, "%s%d", k ? "," : "", (int) c->revokedStatus);
+#endif
     sb_printf(&g_out, "],\"found\":%d,\"caskip\":%d,\"caok\":[", found ? 1 : 0, caskip);
     for (k = 0; k < ncaf; k++) sb_printf(&g_out, "%s%d", k ? "," : "", caok[k]);
     sb_printf(&g_out, "]");
@@ -2193,6 +2197,41 @@ static void cmd_validate(char **tok, int ntok)
     if (chain) psX509FreeCert(chain);
     if (cas) psX509FreeCert(cas);
 }
+
+#ifdef USE_CRL
+/* crl file=<der> [ca=<pem>] [tag=<id>]: what an application does with a CRL it fetched: parse it, authenticate it against
+   the CA certificate it trusts (without ca=: left unauthenticated) and put it into the library's CRL cache, replacing an
+   older CRL of the same issuer.   crlclear: empty the cache. */
+static void cmd_crl(char **tok, int ntok)
+{
+    const char *fn = opt_get(tok, ntok, "file"), *ca = opt_get(tok, ntok, "ca");
+    unsigned char *buf = NULL; long n = 0; FILE *f;
+    psX509Crl_t *crl = NULL; psX509Cert_t *cac = NULL;
+    int32 prc = -999, arc = -999, urc = -999, authd = -1, nrev = 0;
+    if (fn && (f = fopen(fn, "rb")))
+    {
+        fseek(f, 0, SEEK_END); n = ftell(f); fseek(f, 0, SEEK_SET);
+        buf = malloc(n > 0 ? n : 1);
+        if (buf && fread(buf, 1, n, f) != (size_t) n) n = 0;
+        fclose(f);
+    }
+    if (buf && n > 0) prc = psX509ParseCRL(NULL, &crl, buf, (int32) n);
+    if (prc >= 0 && crl)
+    {
+        x509revoked_t *r;
+        if (ca && parse_cert_file(ca, &cac) >= 0 && cac) arc = psX509AuthenticateCRL(cac, crl, NULL);
+        authd = crl->authenticated ? 1 : 0;
+        for (r = crl->revoked; r; r = r->next) nrev++;
+        urc = psCRL_Update(crl, 1);
+        if (urc == 0) psX509FreeCRL(crl);       /* not taken */
+    }
+    emit_begin(&g_out, "crl", NULL);
+    sb_printf(&g_out, ",\"tag\":\"%s\",\"prc\":%d,\"arc\":%d,\"urc\":%d,\"authd\":%d,\"nrev\":%d", opt_get(tok, ntok, "tag") ? opt_get(tok, ntok, "tag") : "", prc, arc, urc, authd, nrev);
+    emit_end(&g_out);
+    if (cac) psX509FreeCert(cac);
+    free(buf);
+}
+#endif
 
 static void run_line(char *line)
 {
@@ -2238,6 +2277,10 @@ static void run_line(char *line)
     else if (!strcmp(tok[0], "close")) cmd_close(tok);
     else if (!strcmp(tok[0], "del")) cmd_del(tok);
     else if (!strcmp(tok[0], "state")) cmd_state(tok);
+#ifdef USE_CRL
+    else if (!strcmp(tok[0], "crl")) cmd_crl(tok, ntok);
+    else if (!strcmp(tok[0], "crlclear")) { psCRL_DeleteAll(); emit_begin(&g_out, "crlclear", NULL); emit_end(&g_out); }
+#endif
     else if (!strcmp(tok[0], "pad"))
     {
         /* pad <ep> <blocksize>: switch block padding of outgoing TLS 1.3 records on for a live session */
@@ -2389,6 +2432,9 @@ static void run_line(char *line)
         for (i = 0; i < MAXEP; i++) { if (g_eps[i].used) { char *t[2]; t[0] = "del"; t[1] = g_eps[i].name; cmd_del(t); } }
         for (i = 0; i < MAXSID; i++) { if (g_sids[i].used) { matrixSslDeleteSessionId(g_sids[i].sid); g_sids[i].used = 0; } }
         for (i = 0; i < MAXKEYS; i++) { if (g_keys[i].used) { if (g_keys[i].keys) matrixSslDeleteKeys(g_keys[i].keys); g_keys[i].used = 0; } }
+#ifdef USE_CRL
+        psCRL_DeleteAll();      /* the CRL cache is process-wide */
+#endif
         matrixSslClose();
         memset(g_slotn, 0, sizeof(g_slotn));
         matrixDtlsSetPmtu(-1);
